@@ -24,11 +24,11 @@ def optInt (s : String) : Option Int := if s == "-" then none else s.toInt?
 def reach (S : List TState) : List TState := internalReach 20000 S []
 
 def fin (s : St) (S : List TState) (why : String) : St × String :=
-  let S := S.eraseDups
+  let S := (S.map fun x => { x with sent := [] }).eraseDups
   ({ s with set := S }, if S.isEmpty then s!"reject {why}" else s!"ok {S.length}")
 
 def wantPanic (o : String) (S : List TState) : List TState :=
-  if o == "panic" then S.filter (·.panicked) else S.filter (fun x => !x.panicked)
+  if o == "panic" then S.filter (·.lastPanic) else S.filter (fun x => !x.lastPanic)
 
 def step (s : St) : List String → St × String
   | ["sleep", d, dl, ctxAt, res, el] =>
@@ -37,10 +37,10 @@ def step (s : St) : List String → St × String
     if shown.contains s!"{res}@{intOr el}" then (s, "ok") else (s, "reject allowed=" ++ joinWith "," shown)
   | ["new", d, j, o] =>
     let S := (0 :: randChoices (intOr j)).eraseDups.filterMap (create s.clock (intOr d) (intOr j))
-    fin s (wantPanic o S) s!"new: model allows panicked={S.map (·.panicked)}"
+    fin s (wantPanic o S) s!"new: model allows panic={S.map (·.lastPanic)}"
   | ["adv", dt] =>
     let t := s.clock + intOr dt
-    fin { s with clock := t } (s.set.flatMap (advanceTo 100000 t)) "adv"
+    fin { s with clock := t } (advanceTo 100000 t s.set) "adv"
   | ["settle"] => fin s ((reach s.set).filter isQuiescent) "settle"
   | ["poll", "empty"] =>
     let R := reach s.set
@@ -53,11 +53,11 @@ def step (s : St) : List String → St × String
   | ["reset", d, j, o] =>
     let R := reach s.set
     let S := R.flatMap fun x => (0 :: randChoices (intOr j)).eraseDups.filterMap fun r => tstep x (.reset (intOr d) (intOr j) r)
-    fin s (wantPanic o S) s!"reset: model allows panicked={S.map (·.panicked)}"
+    fin s (wantPanic o S) s!"reset: model allows panic={S.map (·.lastPanic)}"
   | ["stop", o] =>
     let R := reach s.set
     let S := R.filterMap fun x => tstep x .stop
-    fin s (wantPanic o S) s!"stop: model allows panicked={S.map (·.panicked)}"
+    fin s (wantPanic o S) s!"stop: model allows panic={S.map (·.lastPanic)}"
   | _ => (s, "bad-op")
 
 def handler : Handler := { σ := St, init := {}, step := step }
